@@ -24,6 +24,27 @@ def replay(spec):
     corr = {"fourth_order_central_difference": 0 * J, "central_difference": h * h * d3 / 6,
             "forward_difference": h * d2 / 2, "backward_difference": -h * d2 / 2}[method]
     problems = []
+    if spec.get("kind") == "history":
+        # a query, then new parameter values, then a second query on the same model object
+        py_get_sensitivity_to_parameter(M, [a, b], "k1", method=method)
+        py_get_jacobian(M, [a, b], method=method)
+        k1n, k2n = 1.9, 0.05
+        M.set_params({"k1": k1n, "k2": k2n})
+        Jn = np.array([[-9 * k1n * a * a - k2n * b, -k2n * a], [3 * k1n * a * a - k2n * b, -k2n * a]])
+        d2n = np.array([[-18 * k1n * a, 0.0], [6 * k1n * a, 0.0]])
+        d3n = np.array([[-18 * k1n, 0.0], [6 * k1n, 0.0]])
+        corrn = {"fourth_order_central_difference": 0 * Jn, "central_difference": h * h * d3n / 6,
+                 "forward_difference": h * d2n / 2, "backward_difference": -h * d2n / 2}[method]
+        gz = py_get_sensitivity_to_parameter(M, [a, b], "k2", method=method)      # f depends on k2 linearly: -a*b for both species
+        gj = py_get_jacobian(M, [a, b], method=method)
+        if not np.allclose(gz, [-a * b, -a * b], rtol=0, atol=5e-9):
+            problems.append("after set_params, d f/d k2 [%s] = %s, analytic %s" % (method, np.asarray(gz).tolist(), [-a * b, -a * b]))
+        if not np.allclose(gj, Jn + corrn, rtol=0, atol=5e-9):
+            problems.append("after set_params, jacobian[%s] = %s, analytic at the new values %s" % (method, np.asarray(gj).tolist(), (Jn + corrn).tolist()))
+        now = dict(M.get_parameter_dictionary())
+        if abs(now["k1"] - k1n) > 0 or abs(now["k2"] - k2n) > 0:
+            problems.append("the model's parameters are %s after the queries, they were set to k1=%s k2=%s" % (now, k1n, k2n))
+        return {"reproduced": bool(problems), "observed": problems[:3], "expected": "derivatives at the model's current parameters"}
     if spec.get("kind", "jacobian") == "jacobian":
         got = py_get_jacobian(M, [a, b], method=method)
         if not np.allclose(got, J + corr, rtol=0, atol=5e-9):
